@@ -26,6 +26,11 @@ enum Op {
     DeleteNode(u16),
     UpdateNode(u16, i64),
     UpdateEdge(u16, i64),
+    /// batch_create_edges of (from, to, type, directed, reserved-property-name?) elements: an element
+    /// with a reserved `_`-prefixed property name or a dead endpoint makes the product refuse the batch,
+    /// possibly after it has created some of the earlier elements; whatever exists afterwards must be
+    /// fully linked
+    BatchEdges(Vec<(u16, u16, u8, bool, bool)>),
 }
 
 fn op_strategy(hub: bool) -> impl Strategy<Value = Op> {
@@ -39,6 +44,8 @@ fn op_strategy(hub: bool) -> impl Strategy<Value = Op> {
         2 => any::<u16>().prop_map(Op::DeleteNode),
         1 => (any::<u16>(), 0i64..10).prop_map(|(n, v)| Op::UpdateNode(n, v)),
         2 => (any::<u16>(), 0i64..10).prop_map(|(e, v)| Op::UpdateEdge(e, v)),
+        2 => prop::collection::vec((prop_oneof![2 => Just(0u16), 3 => any::<u16>()], any::<u16>(), 0u8..2, any::<bool>(), prop::bool::weighted(0.15)), 1..6)
+            .prop_map(Op::BatchEdges),
     ]
 }
 
@@ -319,6 +326,54 @@ fn seq_check(c: &SeqCase, ctx: &mut CaseCtx) -> Result<(), Fail> {
                     (Err(_), false) => {},
                     (Ok(id), false) => ctx.fail("edge-to-missing-node", format!("{when}: create_edge({a},{b}) returned {id} although an endpoint does not exist"))?,
                     (Err(e), true) => ctx.fail("create_edge-error", format!("{when}: create_edge({a},{b}) failed: {e}"))?,
+                }
+            },
+            Op::BatchEdges(es) => {
+                let inputs: Vec<EdgeInput> = es
+                    .iter()
+                    .map(|(a, b, t, d, reserved)| {
+                        let mut p = props(1);
+                        if *reserved {
+                            p.insert("_w".to_string(), PropertyValue::Int(1));
+                        }
+                        EdgeInput::new(pool[pick(*a, pool.len())], pool[pick(*b, pool.len())], ty(*t), p, *d)
+                    })
+                    .collect();
+                let refusable = es.iter().zip(inputs.iter()).any(|(e, i)| e.4 || !m.nodes.contains(&i.from) || !m.nodes.contains(&i.to));
+                match g.batch_create_edges(inputs.clone()) {
+                    Ok(r) => {
+                        if r.created_ids.len() != inputs.len() {
+                            ctx.fail("batch:id-count", format!("{when}: {} ids for {} edges", r.created_ids.len(), inputs.len()))?;
+                        }
+                        for (id, i) in r.created_ids.iter().zip(inputs.iter()) {
+                            m.edges.insert(*id, MEdge { from: i.from, to: i.to, ty: i.edge_type.clone(), directed: i.directed });
+                            epool.push(*id);
+                        }
+                        ctx.label("batch_create_edges accepted");
+                    },
+                    Err(e) => {
+                        if !refusable {
+                            ctx.fail("batch:create-error", format!("{when}: batch_create_edges of valid elements failed: {e}"))?;
+                        }
+                        // the refused batch may have created some of its elements (the unchanged tree keeps
+                        // those before the refused one): whatever exists now is an edge like any other
+                        let mut kept = 0;
+                        for x in g.all_edges() {
+                            if m.edges.contains_key(&x.id) {
+                                continue;
+                            }
+                            if !inputs.iter().any(|i| i.from == x.from && i.to == x.to && i.directed == x.directed && i.edge_type == x.edge_type) {
+                                ctx.fail("batch:unknown-edge", format!("{when}: edge {} ({}->{}) appeared and is none of the batch's elements", x.id, x.from, x.to))?;
+                            }
+                            m.edges.insert(x.id, MEdge { from: x.from, to: x.to, ty: x.edge_type.clone(), directed: x.directed });
+                            epool.push(x.id);
+                            kept += 1;
+                        }
+                        ctx.label(if kept > 0 { "batch_create_edges refused after creating some elements" } else { "batch_create_edges refused, nothing created" });
+                        if kept > 0 {
+                            ctx.set_nontrivial();
+                        }
+                    },
                 }
             },
             Op::DeleteEdge(e) => {
